@@ -116,7 +116,7 @@ def gen_jobs(ctx: Ctx):
     extra = []
     seen_cfg = set()
     for j in jobs:
-        if j["store"] == "zip" and j["pre"] != "none" and "path_form" not in j:
+        if j.get("store") == "zip" and j["pre"] != "none" and "path_form" not in j:
             cfg = (j["kind"], j["mode"], j["pre"])
             if ctx.quick and cfg in seen_cfg:
                 continue
@@ -486,6 +486,10 @@ def check_results(ctx: Ctx, jobs, results):
                        "valid": job.get("valid", True)}
         oracle_failed_here = False
         oc = outcome_code_c if job["kind"] == "names" else outcome_code
+        if job["kind"] == "names" and not job.get("valid", True):
+            # a refused call: WHICH refusal comes out (FileExistsError or ValueError) when the target exists too is
+            # not something the property speaks about; both count as "refused, nothing changed"
+            oc = lambda out: {4: 1}.get(outcome_code_c(out), outcome_code_c(out))    # noqa: E731
 
         def report_oracle(obs, kind, extra, **kw):
             nonlocal oracle_failed_here
@@ -604,7 +608,10 @@ def check_results(ctx: Ctx, jobs, results):
                           "resolved target (%s) (%s)" % (sp_got, sp_want, cfg),
                           {**base_replay, "inject_at": None, "impl": clean}, found_input=oracle_failed_here)
         # clean run vs model (no fault)
-        same = (model_clean["class"], model_clean["target_unmodified"], model_clean["outcome"]) == (
+        mo = model_clean["outcome"]
+        if job["kind"] == "names" and not job.get("valid", True) and mo == 4:
+            mo = 1
+        same = (model_clean["class"], model_clean["target_unmodified"], mo) == (
             canon_class(job, clean), clean["target_unmodified"], oc(clean["outcome"]))
         if not same:
             n_dis += 1
